@@ -36,6 +36,9 @@ pub trait Functor<O1: Clone, A1: Clone, O2, A2> {
     /// interface lengths): lets callers state machine-arithmetic preconditions about the image the functor really returns
     spec fn ops_bound(&self, ops: Operations<O1, A1>) -> nat;
 
+    /// the functor's own description of its action on a tensoring of operations (what `r` may be for `ops`)
+    spec fn ops_post(&self, ops: Operations<O1, A1>, r: OpenHypergraph<O2, A2>) -> bool;
+
     fn map_object(&self, a: &SemifiniteFunction<O1>) -> (r: IndexedCoproduct<SemifiniteFunction<O2>>)
         requires a@.len() < usize::MAX, total(flat_sizes(a@, |o: O1| self.obj(o))) < usize::MAX, lawful_clone::<O1>(),
         ensures r.wf(), r.sources.table@.len() == a@.len(),
@@ -47,7 +50,8 @@ pub trait Functor<O1: Clone, A1: Clone, O2, A2> {
         ensures r.wf(),
             is_flat_image(r.src_type(), ops.a.values@, |o: O1| self.obj(o)),
             is_flat_image(r.tgt_type(), ops.b.values@, |o: O1| self.obj(o)),
-            oh_sizes_le(r, self.ops_bound(ops));
+            oh_sizes_le(r, self.ops_bound(ops)),
+            self.ops_post(ops, r);
 }
 
 /// every size of the diagram is at most b
@@ -113,10 +117,28 @@ pub open spec fn is_block_image<O2>(ty: Seq<O2>, fw: IndexedCoproduct<Semifinite
 }
 ''')
 
+raw(r'''
+/// `tab` is the block-wise injection of the node list g into the expanded node list: block p of tab enumerates block g[p] of fw
+pub open spec fn is_half<O2>(tab: Seq<usize>, fw: IndexedCoproduct<SemifiniteFunction<O2>>, g: Seq<usize>) -> bool {
+    let sz = fw.sources.table@; let k = kseq(sz, g);
+    &&& tab.len() == total(k)
+    &&& forall|p: int, j: int| 0 <= p < k.len() && 0 <= j < k[p] ==> tab[#[trigger] seg_at(k, p, j)] == psum(sz, g[p] as int) + j
+}
+
+/// C12 headline: r is f with every node replaced by its block of fw, every hyperedge by its part of fx, glued along the
+/// expanded source and target lists, and with both interfaces expanded
+pub open spec fn is_substitution<O1, A1, O2, A2>(r: OpenHypergraph<O2, A2>, f: OpenHypergraph<O1, A1>, fw: IndexedCoproduct<SemifiniteFunction<O2>>, fx: OpenHypergraph<O2, A2>) -> bool {
+    exists|fs: Seq<usize>, ees: Seq<usize>, eet: Seq<usize>, ft: Seq<usize>|
+        is_half(fs, fw, f.s.table@) && is_half(ees, fw, f.h.s.values.table@) && is_half(eet, fw, f.h.t.values.table@) && is_half(ft, fw, f.t.table@)
+        && #[trigger] is_subst_of(r, fw.values@, fx, fs, ees, eet, ft)
+}
+''')
+
 fn(FT, 'spider_map_arrow', kind='free', status='P', props=['C12', 'C05'], where_add='O1: Clone + PartialEq, A1: Clone, O2: Clone + PartialEq, A2: Clone',
    requires=['exists|obj: spec_fn(O1) -> Seq<O2>| sma_pre(*f, fw, fx, obj)', 'lawful_clone::<O2>()', 'lawful_eq::<O2>()', 'lawful_clone::<A2>()'],
    ensures=[('C12.spider_map_arrow-wf', 'r.wf()'),
-            ('C12.spider_map_arrow-type', 'is_block_image(r.src_type(), fw, f.s.table@) && is_block_image(r.tgt_type(), fw, f.t.table@)')],
+            ('C12.spider_map_arrow-type', 'is_block_image(r.src_type(), fw, f.s.table@) && is_block_image(r.tgt_type(), fw, f.t.table@)'),
+            ('C12.spider_map_arrow-subst', 'is_substitution(r, *f, fw, fx)')],
    proofs=[('start', '''lemma_seg_wf_sources(fw.sources, fw.values@.len());'''),
            ('before:sx.compose(', '''let obj = choose|obj: spec_fn(O1) -> Seq<O2>| sma_pre(*f, fw, fx, obj);
             let sz = fw.sources.table@; let fv = fw.values@; let n2 = fv.len() as int;
@@ -174,7 +196,31 @@ fn(FT, 'spider_map_arrow', kind='free', status='P', props=['C12', 'C05'], where_
                 lemma_seg_range(kft, p, j); lemma_seg_range(sz, f.t.table@[p] as int, j);
             }
             assert(is_block_image(sx.src_type(), fw, f.s.table@));
-            assert(is_block_image(yt.tgt_type(), fw, f.t.table@));''')])
+            assert(is_block_image(yt.tgt_type(), fw, f.t.table@));
+            // (4) the composite is the substitution instance
+            let g_fs = sx.s.table@; let g_ft = yt.t.table@;
+            let g_es = sx.t.table@.subrange(n2, sx.t.table@.len() as int);
+            let g_et = yt.s.table@.subrange(n2, yt.s.table@.len() as int);
+            assert(sx.t.table@ =~= id_seq(n2) + g_es);
+            assert(yt.s.table@ =~= id_seq(n2) + g_et);
+            assert(is_half(g_fs, fw, f.s.table@) && is_half(g_ft, fw, f.t.table@));
+            assert(is_half(g_es, fw, es)) by {
+                assert forall|p: int, j: int| 0 <= p < ks.len() && 0 <= j < ks[p] implies g_es[#[trigger] seg_at(ks, p, j)] == psum(sz, es[p] as int) + j by {
+                    lemma_seg_range(ks, p, j);
+                }
+            }
+            assert(is_half(g_et, fw, et)) by {
+                assert forall|p: int, j: int| 0 <= p < kt.len() && 0 <= j < kt[p] implies g_et[#[trigger] seg_at(kt, p, j)] == psum(sz, et[p] as int) + j by {
+                    lemma_seg_range(kt, p, j);
+                }
+            }
+            assert forall|j: int| 0 <= j < g_es.len() implies (#[trigger] g_es[j]) < n2 by { assert(sx.t.table@[n2 + j] < sx.t.target); }
+            assert forall|j: int| 0 <= j < g_et.len() implies (#[trigger] g_et[j]) < n2 by { assert(yt.s.table@[n2 + j] < yt.s.target); }
+            assert forall|m: OpenHypergraph<O2, A2>, c1: OpenHypergraph<O2, A2>, rr: OpenHypergraph<O2, A2>|
+                    #[trigger] is_tensor(m, i, fx) && #[trigger] is_pushout(sx, m, c1) && #[trigger] is_pushout(c1, yt, rr)
+                    implies is_subst_of(rr, fv, fx, g_fs, g_es, g_et, g_ft) by {
+                lemma_subst_instance(sx, i, fx, m, yt, c1, rr, fv, g_fs, g_es, g_et, g_ft);
+            }''')])
 
 raw(r'''
 pub proof fn lemma_block_to_flat<O1, O2>(ty: Seq<O2>, fw: IndexedCoproduct<SemifiniteFunction<O2>>, nodes: Seq<usize>, w: Seq<O1>, obj: spec_fn(O1) -> Seq<O2>)
@@ -235,6 +281,23 @@ pub proof fn lemma_fw_sizes<O1, O2>(fw: IndexedCoproduct<SemifiniteFunction<O2>>
 }
 ''')
 
+raw(r'''
+/// fw is the expanded node list of w: block i is obj(w[i])
+pub open spec fn is_object_image<O1, O2>(fw: IndexedCoproduct<SemifiniteFunction<O2>>, w: Seq<O1>, obj: spec_fn(O1) -> Seq<O2>) -> bool {
+    &&& fw.wf() && fw.sources.table@.len() == w.len()
+    &&& forall|i: int| 0 <= i < w.len() ==> #[trigger] seg_is(fw, i, obj(w[i]))
+}
+/// fx is an image of the operations of f side by side: what the functor's map_operations may return for the
+/// operations of f (ops_post is the functor's own postcondition), a well-formed diagram whose inputs / outputs are the
+/// expanded source / target lists of all hyperedges of f
+pub open spec fn is_ops_image<O1: Clone, A1: Clone, O2, A2, F: Functor<O1, A1, O2, A2>>(functor: F, fx: OpenHypergraph<O2, A2>, f: OpenHypergraph<O1, A1>) -> bool {
+    &&& fx.wf()
+    &&& is_flat_image(fx.src_type(), Seq::new(f.h.s.values.table@.len(), |p: int| f.h.w@[f.h.s.values.table@[p] as int]), |o: O1| functor.obj(o))
+    &&& is_flat_image(fx.tgt_type(), Seq::new(f.h.t.values.table@.len(), |p: int| f.h.w@[f.h.t.values.table@[p] as int]), |o: O1| functor.obj(o))
+    &&& exists|ops: Operations<O1, A1>| #[trigger] is_ops_of(f, ops) && functor.ops_post(ops, fx)
+}
+''')
+
 fn(FT, 'define_map_arrow', kind='free', status='P', props=['C12', 'C05'],
    where_add='O1: Clone + PartialEq, A1: Clone, O2: Clone + PartialEq, A2: Clone, F: Functor<O1, A1, O2, A2>',
    requires=['f.wf()', 'lawful_clone::<O1>()', 'lawful_clone::<A1>()', 'lawful_clone::<O2>()', 'lawful_eq::<O2>()', 'lawful_clone::<A2>()',
@@ -244,7 +307,9 @@ fn(FT, 'define_map_arrow', kind='free', status='P', props=['C12', 'C05'],
              'forall|ops: Operations<O1, A1>| #[trigger] is_ops_of(*f, ops) ==> small(functor.ops_bound(ops))',
              'dma_sizes(*f, |o: O1| functor.obj(o))'],
    ensures=[('C12.define_map_arrow-wf', 'r.wf()'),
-            ('C12.define_map_arrow-type', '''is_flat_image(r.src_type(), f.src_type(), |o: O1| functor.obj(o)) && is_flat_image(r.tgt_type(), f.tgt_type(), |o: O1| functor.obj(o))''')],
+            ('C12.define_map_arrow-type', '''is_flat_image(r.src_type(), f.src_type(), |o: O1| functor.obj(o)) && is_flat_image(r.tgt_type(), f.tgt_type(), |o: O1| functor.obj(o))'''),
+            ('C12.define_map_arrow-subst', '''exists|fw: IndexedCoproduct<SemifiniteFunction<O2>>, fx: OpenHypergraph<O2, A2>|
+                is_object_image(fw, f.h.w@, |o: O1| functor.obj(o)) && is_ops_image(*functor, fx, *f) && #[trigger] is_substitution(r, *f, fw, fx)''')],
    proofs=[('start', '''let ops_a0 = Seq::new(f.h.s.values.table@.len(), |p: int| f.h.w@[f.h.s.values.table@[p] as int]);
             let ops_b0 = Seq::new(f.h.t.values.table@.len(), |p: int| f.h.w@[f.h.t.values.table@[p] as int]);
             assert forall|t: Seq<O1>| #![trigger t.len()] t.len() == ops_a0.len() && (forall|p: int| 0 <= p < ops_a0.len() ==> t[p] == ops_a0[p]) implies t == ops_a0 by { assert(t =~= ops_a0); }
@@ -261,6 +326,7 @@ fn(FT, 'define_map_arrow', kind='free', status='P', props=['C12', 'C05'],
             assert(sma_pre(*f, fw, fx, obj)) by {
                 assert forall|i: int| 0 <= i < f.h.w@.len() implies #[trigger] seg_is(fw, i, obj(f.h.w@[i])) by { assert(seg_is(fw, i, functor.obj(f.h.w@[i]))); }
             }
+            assert(is_object_image(fw, f.h.w@, obj) && is_ops_image(*functor, fx, *f));
             let sz = fw.sources.table@; let fv = fw.values@;
             // block form -> per-generator form (lemma_block_to_flat), applied to the result below
             assert(f.src_type() =~= Seq::new(f.s.table@.len(), |p: int| f.h.w@[f.s.table@[p] as int]));
@@ -283,6 +349,17 @@ fn(FT, 'define_map_arrow', kind='free', status='P', props=['C12', 'C05'],
 # ---------------------------------------------------------------------------------------------
 raw(r'''
 pub struct Identity;
+
+/// r is the diagram with exactly the operations of `ops` side by side and nothing else: one fresh node per input and per output
+/// position, inputs then outputs, each hyperedge attached to its own nodes in order (the postcondition of tensor_operations)
+pub open spec fn is_tensor_ops<O, A>(r: OpenHypergraph<O, A>, ops: Operations<O, A>) -> bool {
+    let na = ops.a.values@.len() as int; let nb = ops.b.values@.len() as int;
+    &&& r.wf() && r.h.x@ == ops.x@ && r.h.w@ == ops.a.values@ + ops.b.values@
+    &&& r.h.s.sources.table@ == ops.a.sources.table@ && r.h.t.sources.table@ == ops.b.sources.table@
+    &&& r.s.table@ == r.h.s.values.table@ && r.t.table@ == r.h.t.values.table@
+    &&& r.s.table@.len() == na && (forall|i: int| 0 <= i < na ==> r.s.table@[i] == i)
+    &&& r.t.table@.len() == nb && (forall|i: int| 0 <= i < nb ==> r.t.table@[i] == na + i)
+}
 ''')
 fn(FI, 'map_object', trait='Functor', self_ty='Identity', status='P', props=['C12'], rename='identity_map_object',
    rules={'self_rename': ['this', '&Identity']}, generics_add=['O: Clone + PartialEq'],
@@ -295,13 +372,15 @@ fn(FI, 'map_operations', trait='Functor', self_ty='Identity', status='P', props=
              'small(ops.a.values@.len() + ops.b.values@.len() + ops.x@.len())', 'lawful_clone::<O>()', 'lawful_clone::<A>()'],
    proofs=[('start', '''assert forall|s: Seq<usize>, i: int| (forall|k: int| 0 <= k < s.len() ==> s[k] == 1) && 0 <= i <= s.len() implies #[trigger] psum(s, i) == i by { lemma_psum_const(s, 1usize, i); }''')],
    ensures=[('C12.identity-map_operations', '''r.wf() && is_flat_image(r.src_type(), ops.a.values@, |o: O| seq![o]) && is_flat_image(r.tgt_type(), ops.b.values@, |o: O| seq![o])
-                && oh_sizes_le(r, ops.a.values@.len() + ops.b.values@.len() + ops.x@.len())''')])
+                && oh_sizes_le(r, ops.a.values@.len() + ops.b.values@.len() + ops.x@.len())'''),
+            ('C12.identity-map_operations-exact', 'is_tensor_ops(r, ops)')])
 
 raw(r'''
 // trait impl of /repo: `impl Functor<K, O, A, O, A> for Identity`; the method bodies are the free functions above (glue: trusted)
 impl<O: Clone + PartialEq, A: Clone> Functor<O, A, O, A> for Identity {
     open spec fn obj(&self, o: O) -> Seq<O> { seq![o] }
     open spec fn ops_bound(&self, ops: Operations<O, A>) -> nat { ops.a.values@.len() + ops.b.values@.len() + ops.x@.len() }
+    open spec fn ops_post(&self, ops: Operations<O, A>, r: OpenHypergraph<O, A>) -> bool { is_tensor_ops(r, ops) }
     #[verifier::external_body]
     fn map_object(&self, a: &SemifiniteFunction<O>) -> (r: IndexedCoproduct<SemifiniteFunction<O>>) { identity_map_object(self, a) }
     #[verifier::external_body]
@@ -321,13 +400,112 @@ pub proof fn lemma_flat_identity<O>(ty: Seq<O>, a: Seq<O>)
 }
 ''', tag='T2-glue:Identity')
 
+raw(r'''
+/// with one-element blocks the block-wise injection of a node list is the node list
+pub proof fn lemma_half_singleton<O2>(tab: Seq<usize>, fw: IndexedCoproduct<SemifiniteFunction<O2>>, g: Seq<usize>)
+    requires is_half(tab, fw, g), forall|i: int| 0 <= i < fw.sources.table@.len() ==> fw.sources.table@[i] == 1, in_bounds(g, fw.sources.table@.len() as int),
+    ensures tab =~= g
+{
+    let sz = fw.sources.table@; let k = kseq(sz, g);
+    assert forall|p: int| 0 <= p <= g.len() implies #[trigger] psum(k, p) == p by { lemma_psum_const(k, 1usize, p); }
+    assert forall|p: int| 0 <= p < g.len() implies tab[p] == g[p] by {
+        lemma_psum_const(sz, 1usize, g[p] as int);
+        assert(tab[seg_at(k, p, 0)] == psum(sz, g[p] as int) + 0);
+    }
+}
+
+/// C12, last sentence: the substitution instance for the identity functor (object map o |-> [o], operations side by side) is
+/// isomorphic to the argument -- every fresh node of an operation is glued to exactly one node of f
+pub proof fn lemma_identity_subst_iso<O: Clone, A: Clone>(f: OpenHypergraph<O, A>, fw: IndexedCoproduct<SemifiniteFunction<O>>, fx: OpenHypergraph<O, A>, ops: Operations<O, A>, r: OpenHypergraph<O, A>) -> (phi: Seq<usize>)
+    requires f.wf(), is_object_image(fw, f.h.w@, |o: O| seq![o]), is_ops_of(f, ops), lawful_clone::<O>(), lawful_clone::<A>(), is_tensor_ops(fx, ops),
+        is_substitution(r, f, fw, fx), f.h.w@.len() + f.h.s.values.table@.len() + f.h.t.values.table@.len() <= usize::MAX,
+    ensures node_iso(r, f, phi)
+{
+    let n = f.h.w@.len() as int; let es = f.h.s.values.table@; let et = f.h.t.values.table@;
+    let ne = es.len() as int; let nt = et.len() as int; let nn = n + ne + nt;
+    let sz = fw.sources.table@;
+    let obj1 = |o: O| seq![o];
+    assert forall|i: int| 0 <= i < n implies sz[i] == 1 by { assert(seg_is(fw, i, obj1(f.h.w@[i]))); }
+    lemma_psum_const(sz, 1usize, n);
+    assert(fw.values@.len() == n);
+    assert forall|i: int| 0 <= i < n implies fw.values@[i] == f.h.w@[i] by {
+        assert(seg_is(fw, i, obj1(f.h.w@[i])));
+        lemma_psum_const(sz, 1usize, i);
+        assert(fw.values@[seg_at(sz, i, 0)] == obj1(f.h.w@[i])[0]);
+    }
+    assert(fw.values@ =~= f.h.w@);
+    let (fs, ees, eet, ft) = choose|fs: Seq<usize>, ees: Seq<usize>, eet: Seq<usize>, ft: Seq<usize>|
+        is_half(fs, fw, f.s.table@) && is_half(ees, fw, f.h.s.values.table@) && is_half(eet, fw, f.h.t.values.table@) && is_half(ft, fw, f.t.table@)
+        && #[trigger] is_subst_of(r, fw.values@, fx, fs, ees, eet, ft);
+    assert(in_bounds(f.s.table@, n) && in_bounds(f.t.table@, n) && in_bounds(es, n) && in_bounds(et, n)) by {
+        assert forall|i: int| 0 <= i < f.s.table@.len() implies (#[trigger] f.s.table@[i]) < n by { assert(f.s.table@[i] < f.s.target); }
+        assert forall|i: int| 0 <= i < f.t.table@.len() implies (#[trigger] f.t.table@[i]) < n by { assert(f.t.table@[i] < f.t.target); }
+        assert forall|i: int| 0 <= i < es.len() implies (#[trigger] es[i]) < n by { assert(f.h.s.values.table@[i] < f.h.s.values.target); }
+        assert forall|i: int| 0 <= i < et.len() implies (#[trigger] et[i]) < n by { assert(f.h.t.values.table@[i] < f.h.t.values.target); }
+    }
+    lemma_half_singleton(fs, fw, f.s.table@); lemma_half_singleton(ft, fw, f.t.table@);
+    lemma_half_singleton(ees, fw, es); lemma_half_singleton(eet, fw, et);
+    assert(fx.h.w@.len() == ne + nt);
+    let pp = ees + eet; let qq = shifted(fx.s.table@, n) + shifted(fx.t.table@, n);
+    let (q, k) = choose|q: Seq<usize>, k: int| is_coeq(q, k, pp, qq, n + (ne + nt)) && #[trigger] is_subst_quotient(r, fw.values@, fx, fs, ft, q, k);
+    let h = Seq::new(nn as nat, |a: int| if a < n { a as usize } else if a < n + ne { es[a - n] } else { et[a - n - ne] });
+    assert forall|j: int| 0 <= j < pp.len() implies 0 <= #[trigger] pp[j] < nn && 0 <= qq[j] < nn && qq[j] == n + j && pp[j] == h[n + j] by {
+        if j < ne { assert(pp[j] == es[j]); assert(qq[j] == shifted(fx.s.table@, n)[j]); }
+        else { assert(pp[j] == et[j - ne]); assert(qq[j] == shifted(fx.t.table@, n)[j - ne]); }
+    }
+    assert forall|c: int| 0 <= c < n implies #[trigger] hit(h, c, nn) by { assert(h[c] == c); }
+    assert forall|a: int| 0 <= a < nn implies (#[trigger] h[a]) < n && q[a] == q[h[a] as int] by {
+        if a >= n { let j = a - n; assert(qq[j] == n + j && pp[j] == h[n + j]); assert(q[pp[j] as int] == q[qq[j] as int]); }
+    }
+    assert forall|j: int| 0 <= j < pp.len() implies h[#[trigger] pp[j] as int] == h[qq[j] as int] by { assert(qq[j] == n + j && pp[j] == h[n + j]); }
+    let phi = lemma_factor_iso(q, k, pp, qq, nn, h, n);
+    assert forall|v: int| 0 <= v < k implies f.h.w@[(#[trigger] phi[v]) as int] == r.h.w@[v] by {
+        assert(hit(q, v, nn));
+        let a = choose|a: int| 0 <= a < nn && #[trigger] q[a] == v;
+        assert(phi[q[a] as int] == h[a]);
+        assert(r.h.w@[q[a] as int] == (fw.values@ + fx.h.w@)[a]);
+        if a >= n { if a < n + ne { assert(ops.a.values@[a - n] == f.h.w@[es[a - n] as int]); } else { assert(ops.b.values@[a - n - ne] == f.h.w@[et[a - n - ne] as int]); } }
+    }
+    assert(f.h.x@ =~= r.h.x@);
+    assert forall|i: int| 0 <= i < ne implies (#[trigger] f.h.s.values.table@[i]) == phi[r.h.s.values.table@[i] as int] by {
+        assert(fx.h.s.values.table@[i] == fx.s.table@[i]);
+        assert(r.h.s.values.table@[i] == q[n + fx.h.s.values.table@[i]]);
+        assert(phi[q[n + i] as int] == h[n + i]);
+    }
+    assert forall|i: int| 0 <= i < nt implies (#[trigger] f.h.t.values.table@[i]) == phi[r.h.t.values.table@[i] as int] by {
+        assert(fx.h.t.values.table@[i] == fx.t.table@[i]);
+        assert(r.h.t.values.table@[i] == q[n + fx.h.t.values.table@[i]]);
+        assert(phi[q[n + ne + i] as int] == h[n + ne + i]);
+    }
+    assert forall|i: int| 0 <= i < f.s.table@.len() implies (#[trigger] f.s.table@[i]) == phi[r.s.table@[i] as int] by {
+        assert(r.s.table@[i] == q[fs[i] as int]);
+        assert(phi[q[fs[i] as int] as int] == h[fs[i] as int]);
+    }
+    assert forall|i: int| 0 <= i < f.t.table@.len() implies (#[trigger] f.t.table@[i]) == phi[r.t.table@[i] as int] by {
+        assert(r.t.table@[i] == q[ft[i] as int]);
+        assert(phi[q[ft[i] as int] as int] == h[ft[i] as int]);
+    }
+    phi
+}
+''')
+
 fn(FI, 'map_arrow', trait='Functor', self_ty='Identity', status='P', props=['C12'], rename='identity_map_arrow',
    rules={'self_rename': ['this', '&Identity']}, generics_add=['O: Clone + PartialEq, A: Clone'],
    requires=['f.wf()', 'lawful_clone::<O>()', 'lawful_clone::<A>()', 'lawful_eq::<O>()',
              'small(f.h.s.values.table@.len() + f.h.t.values.table@.len() + f.h.x@.len())', 'dma_sizes(*f, |o: O| seq![o])'],
    ensures=[('C12.identity-map_arrow-wf', 'r.wf()'),
-            ('C12.identity-map_arrow-type', 'r.src_type() =~= f.src_type() && r.tgt_type() =~= f.tgt_type()')],
+            ('C12.identity-map_arrow-type', 'r.src_type() =~= f.src_type() && r.tgt_type() =~= f.tgt_type()'),
+            ('C12.identity-map_arrow-iso', 'exists|phi: Seq<usize>| #[trigger] node_iso(r, *f, phi)')],
    proofs=[('start', '''let obj = |o: O| <Identity as Functor<O, A, O, A>>::obj(this, o);
             assert(obj =~= (|o: O| seq![o]));
             assert forall|ty: Seq<O>, a: Seq<O>| #[trigger] is_flat_image(ty, a, obj) implies ty =~= a by { lemma_flat_identity(ty, a); }
-            assert(dma_sizes(*f, obj));''')])
+            assert(dma_sizes(*f, obj));
+            assert forall|fw: IndexedCoproduct<SemifiniteFunction<O>>, fx: OpenHypergraph<O, A>, ops: Operations<O, A>, rr: OpenHypergraph<O, A>|
+                    is_object_image(fw, f.h.w@, obj) && #[trigger] is_ops_of(*f, ops) && is_tensor_ops(fx, ops) && #[trigger] is_substitution(rr, *f, fw, fx)
+                    implies exists|phi: Seq<usize>| #[trigger] node_iso(rr, *f, phi) by {
+                let obj1 = |o: O| seq![o];
+                assert(is_object_image(fw, f.h.w@, obj1)) by {
+                    assert forall|i: int| 0 <= i < f.h.w@.len() implies #[trigger] seg_is(fw, i, obj1(f.h.w@[i])) by { assert(seg_is(fw, i, obj(f.h.w@[i]))); }
+                }
+                let phi = lemma_identity_subst_iso(*f, fw, fx, ops, rr);
+            }''')])
